@@ -33,3 +33,13 @@ check("C09",
  "Decides the termination clause only: every natural loop in decode-reachable code is proved to make progress when each back edge strictly moves an integer variable (or struct field) that an exit test reads, in the direction of that test, or when every cycle passes a cursor primitive whose bottom-up summary consumes at least one input unit on every non-error return. A violation is reported only for a stall path: a cycle that leaves every tested variable exactly unchanged and calls nothing. Loops whose progress is relational are counted out of scope. The 10 s / 512 MiB + 64*S budgets are runtime quantities and are not decided.",
  "trusted: go/ssa natural-loop structure; engine E2 for increment ranges; cursor fields recognised by the read-position idiom (x.pos += k)",
  "DESIGN.md §4 C09")
+check("C04",
+ "sibling cross-check: exhaustiveness of enum dispatch + loop-nest signature agreement between packet encoder and decoder",
+ "Decides one structural clause of C04 only - 'same precinct / code-block / progression enumeration on both sides': every switch over t2.ProgressionOrder handles all five declared constants (error default on the encoder/decoder dispatchers), and for each constant the encoder's and the decoder's packet-enumerating functions nest their layer / resolution / component / precinct loops in the same order. Exhaustive over the finite enum. Exact reconstruction (tag trees, bit stuffing, DWT, block coding, MCT) is value-level and not decided.",
+ "trusted: go/ssa loop structure; the per-packet call is recognised by its (layer, resolution, component, precinct) parameters",
+ "DESIGN.md §4 C04")
+check("C19",
+ "sibling cross-check of packet enumeration (shared with C04) + data-flow rule on the tile index written to SOT",
+ "Decides structural clauses of C19 only: the per-tile packet enumeration agrees between encoder and decoder for every progression constant (rule EXHAUST-PROG, shared with C04), and the Isot field of every tile-part writer is the tile index unmodified (FLOWS-TILEIDX). Tile bounds arithmetic, origin parity of the per-tile wavelet and global rate allocation are value-level and not decided.",
+ "trusted: as C04; SOT writes recognised by the marker constant 0xFF90",
+ "DESIGN.md §4 C19")
